@@ -85,8 +85,22 @@ def run_resolve_case(ctx, suite, case, oracle=None, compare=True):
     """construct the resolver for a case, step through all levels, compare with the model and hand
     the recorded steps to the property oracle"""
     kw = {'last_all_atom': case.get('all_atom', True), 'legacy': case.get('legacy', True)}
+    if 'ctor' not in case and isinstance(case, dict) and compare and suite not in ('corpus', 'replay', 'finding'):
+        # the three constructors are interchangeable (C12): most cases go through the whole string, a deterministic
+        # share through the other entry points — the base graph handed over as a graph, the libraries read separately,
+        # libraries whose template graphs carry other keys in another insertion order
+        h = int(lib.stable_hash([case['s'], 'ctor'])[:8], 16)
+        r = h % 20
+        # (re-keyed templates only where the oracle does not speak in the reader's template keys / atom names)
+        case['ctor'] = 'graph' if r in (0, 1) else 'fragment-dicts' if r in (2, 3) else \
+            'reordered' if (r == 4 and ctx.prop in ('C02', 'C12')) else 'string'
+    ctx.feature('constructor:' + case.get('ctor', 'string'))
     try:
-        resolver = impl.resolver_from_string(case['s'], **kw)
+        try:
+            resolver = impl.resolver_for(case, **kw)
+        except lib.Unsupported:
+            case['ctor'] = 'string'
+            resolver = impl.resolver_for(case, **kw)
     except Exception as err:   # noqa: BLE001
         ctx.count(suite, nontrivial=False)
         ctx.feature('ctor-' + lib.err_class(err))
@@ -118,7 +132,7 @@ def level_definitions_oracle(ctx, case, steps):
     string, read on its own (the same fragment name may be defined differently at different levels)"""
     import re
     from cgsmiles.read_fragments import read_fragments
-    if not steps or not isinstance(case.get('s'), str):
+    if not steps or not isinstance(case.get('s'), str) or case.get('ctor') == 'reordered':
         return
     blocks = re.findall(r"\{[^\}]+\}", case['s'])
     for st in steps:
